@@ -331,11 +331,20 @@ class FakeProcess:
         self.s.point(("spawned", self.name))
 
     def join(self, timeout=None) -> None:
-        self.s.point(("join", self.name), lambda: [None] if self.task.done else [])
+        self.s.point(("join", self.name), lambda: [None] if (self.task.done or self.task.killed) else [])
         self.s.emit(ev="join", proc=self.name, code=self.exitcode)
 
+    def terminate(self) -> None:
+        """SIGTERM: the child dies wherever it is (user-space buffers are lost)."""
+        if self.task is not None and not self.task.done:
+            self.task.killed = True
+            self.exitcode = -15
+            self.s.emit(ev="terminate", proc=self.name)
+
+    kill = terminate
+
     def is_alive(self) -> bool:
-        return self.task is not None and not self.task.done
+        return self.task is not None and not (self.task.done or self.task.killed)
 
 
 def _fork_copy(target):
